@@ -347,6 +347,45 @@ func (c *Ctx) ord7() {
 	dfail.done(1, "a failed dial/handshake deposits connDown")
 	pub.done(2, "the read routine adopts the connection only on the success path")
 	c.ord7Close(dial, hk)
+	// one buffered reader per connection: what handshake returns is the reader
+	// the CONNACK was read through — bytes that arrived with the CONNACK sit in
+	// its buffer, and a second reader on the same connection would never see them
+	one := c.acc("ORD-7", hk, "success⇒the-reader-that-read-CONNACK-is-returned(one-reader-per-connection)")
+	for _, p := range c.Paths("ORD-7", hk) {
+		if p.End != pathx.KReturn || p.Start != hk.Blocks[0] {
+			continue
+		}
+		last := len(p.Events) - 1
+		if retErr(p, last) != triNil {
+			continue
+		}
+		var readers []ssa.Value
+		var peeked ssa.Value
+		for i := range p.Events {
+			e := &p.Events[i]
+			if e.Kind != pathx.KCall || e.Callee == nil {
+				continue
+			}
+			switch stdName(e.Callee) {
+			case "bufio.NewReaderSize", "bufio.NewReader":
+				readers = append(readers, e.Result)
+			case "(*bufio.Reader).Peek", "(*bufio.Reader).ReadByte", "(*bufio.Reader).Read", "io.ReadFull", "(*bufio.Reader).Discard":
+				if len(e.Args) > 0 && peeked == nil {
+					peeked = e.Args[0]
+				}
+			}
+		}
+		ret := p.Events[last].Results[0]
+		switch {
+		case len(readers) != 1:
+			one.fail(p, last, "handshake makes %d buffered readers on the connection, want exactly one", len(readers))
+		case peeked == nil || peeked != readers[0] || ret != readers[0]:
+			one.fail(p, last, "handshake returns %s but read the CONNACK through %s: what the first reader buffered behind the CONNACK is lost, and the stream resumes in the middle of a packet", Expr(ret), Expr(peeked))
+		default:
+			one.pass()
+		}
+	}
+	one.done(1, "a single reader is made, reads the CONNACK and is returned")
 	// Close must be able to interrupt the retransmission round: the new
 	// connection is handed to connSem (from where Close takes and closes it)
 	// before the first resend
@@ -576,7 +615,7 @@ func (c *Ctx) ord9() {
 		case "os.Create", "os.OpenFile", "os.WriteFile", "os.Rename", "os.Truncate", "os.Link", "os.Symlink":
 			n++
 			key := "ORD-9|" + stdName(sc) + "|in(" + load.FuncName(load.TopLevel(fn)) + ")"
-			if load.FuncName(load.TopLevel(fn)) == "(fileSystem).Save" {
+			if c.allowedSite(fn, set("(fileSystem).Save"), c.callers(), map[*ssa.Function]bool{}) {
 				c.S.OK("ORD-9", key, c.P.Pos(ins.Pos()), load.FuncName(fn), "file creation/rename inside Save", false)
 			} else {
 				c.S.Bad("ORD-9", key, c.P.Pos(ins.Pos()), load.FuncName(fn), stdName(sc)+" outside fileSystem.Save: a second writer of the store's files breaks per-key atomicity", nil)
